@@ -240,7 +240,8 @@ def check(model, rep, tier):
   gp = gns.params()[0]
   rets_ = [r for r in ast.walk(gns.node) if isinstance(r, ast.Return)]
   ok = False
-  if len(rets_) == 1 and isinstance(rets_[0].value, ast.Name):
+  if rets_ and all(isinstance(r.value, ast.Name) for r in rets_) and len(
+      {r.value.id for r in rets_}) == 1:
     nsn = rets_[0].value.id
     inits = [a for a in ast.walk(gns.node) if isinstance(a, ast.Assign) and
              core.norm(a.targets[0]) == nsn]
